@@ -78,6 +78,8 @@ type c10UI struct {
 	start    driver.VerifConfig
 	gotSt    bool
 	inReport bool
+	panicked string
+	e2eErr   error
 	said     []string // what report generation printed through the UI (part of the transcript)
 }
 
@@ -229,15 +231,23 @@ func c10ShortHash(s string) string {
 // was generated with, whether the profile it was handed equals the pristine decode, and a hash of
 // everything it produced (stdout, files opened through o.Writer, returned error).
 func c10Session(p *profile.Profile, ref string, cfg0 driver.VerifConfig, lines []string) *c10UI {
+	return c10SessionCore(ref, lines, func(ui *c10UI, mw *c10MemWriter) {
+		driver.VerifSetCurrentConfig(cfg0)
+		o := driver.VerifSetDefaults(&plugin.Options{UI: ui, Writer: mw, HTTPTransport: transport.New(nil)})
+		driver.VerifInteractive(p, o)
+	})
+}
+
+// c10SessionCore: the recording machinery around one run of the interactive loop; run starts the
+// loop (directly, or through driver.PProf).
+func c10SessionCore(ref string, lines []string, run func(ui *c10UI, mw *c10MemWriter)) *c10UI {
 	restoreG := driver.VerifGlobals()
 	defer restoreG()
-	driver.VerifSetCurrentConfig(cfg0)
 	ui := &c10UI{lines: lines}
 	mw := &c10MemWriter{}
-	o := driver.VerifSetDefaults(&plugin.Options{UI: ui, Writer: mw, HTTPTransport: transport.New(nil)})
 	restoreW := driver.VerifWrapReports(func(real func(*profile.Profile, []string, driver.VerifConfig, *plugin.Options) error,
 		pp *profile.Profile, cmd []string, cfg driver.VerifConfig, oo *plugin.Options) error {
-		pristine := Render(DumpProfile(pp)) == ref
+		pristine := ref == "" || Render(DumpProfile(pp)) == ref
 		off := c10StdoutOffset()
 		var err error
 		ui.inReport = true
@@ -260,8 +270,12 @@ func c10Session(p *profile.Profile, ref string, cfg0 driver.VerifConfig, lines [
 	})
 	defer restoreW()
 	func() {
-		defer func() { recover() }()
-		driver.VerifInteractive(p, o)
+		defer func() {
+			if r := recover(); r != nil {
+				ui.panicked = fmt.Sprint(r)
+			}
+		}()
+		run(ui, mw)
 	}()
 	for len(ui.after) < ui.pos {
 		ui.after = append(ui.after, driver.VerifCurrentConfig())
@@ -433,7 +447,7 @@ func runC10(c *Ctx) {
 	defer func() { os.Stdout = realStdout; f.Close(); os.Remove(f.Name()); os.RemoveAll(dir) }()
 
 	var st c10Stats
-	for k := 0; k < c.Budget(500, 3000); k++ {
+	for k := 0; k < c.Budget(350, 3000); k++ {
 		p := c10Profile(c.R)
 		types := c10Types(p)
 		ref := Render(DumpProfile(func() *profile.Profile { return c10ParseBack(p) }()))
@@ -459,21 +473,27 @@ func runC10(c *Ctx) {
 		if k%16 == 5 {
 			// every 16th history is judged against a fresh PROCESS: a process-wide cache inside pprof
 			// would be shared by an in-process "fresh" session
+			// both processes hold the decode of the same bytes (a parse/serialize round trip may
+			// reorder what unstable sorts later see)
 			var buf bytes.Buffer
 			p.WriteUncompressed(&buf)
 			os.WriteFile("c10sess.pb", buf.Bytes(), 0o644)
+			p = c10ParseBack(p)
+			ref = Render(DumpProfile(c10ParseBack(p)))
+			p0dump = Render(DumpProfile(p))
 			child := func(before driver.VerifConfig, line string) []string {
 				r := c10RunChild(c10RefJob{Mode: "sess", Prof: "c10sess.pb", Pairs: driver.VerifConfigDump(before), Lines: []string{c10CompactLine(before), line}}, &st)
 				c10LastRefOuts = r.Outs
 				return r.Hashes
 			}
-			c10History(c, "session", p, ref, p0dump, cfg0, lines, child, 6, &st)
+			c10History(c, "session", p, ref, p0dump, cfg0, lines, child, 40, &st)
 			os.Remove("c10sess.pb")
 			continue
 		}
 		c10History(c, "session", p, ref, p0dump, cfg0, lines, inProc, 60, &st)
 	}
 	c10RunSrc(c, fields, &st)
+	c10RunE2E(c, fields, &st)
 	c.Extra["reports"] = st.reports
 	c.Extra["nondeterministic_outputs_skipped"] = st.flaky
 	c.Extra["leaks_seen"] = st.leaks
@@ -637,7 +657,7 @@ func (c10NullUI) SetAutoComplete(func(string) string) {}
 func c10RunWeb(c *Ctx, fields []driver.VerifField) {
 	paths := []string{"/top", "/top", "/peek", "/flamegraph", "/flamegraph", "/", "/download", "/source"}
 	flaky := 0
-	for k := 0; k < c.Budget(150, 1500); k++ {
+	for k := 0; k < c.Budget(100, 1500); k++ {
 		p := c10Profile(c.R)
 		viaChild := k%8 == 3 // the reference comes from a fresh PROCESS: nothing process-wide is shared
 		if viaChild {
